@@ -75,6 +75,9 @@ class Margin:
 
 class C03(core.Check):
     pid = 'C03'
+    unproved = [
+        'refinement to the reference margin account is stated for one symbol per world; several symbols sharing one wallet are covered by rejection_iff / submit_cancel_restores_margin and by correspondence + oracle',
+    ]
     gen_keys = ['jesse/helpers.py:estimate_average_price', 'jesse/helpers.py:estimate_PNL']
     rule = ('correspondence: seeded LEGAL operation sequences (1-3 symbols sharing one wallet, leverage 1..125, fee on a '
             'lattice, price moves, entries MARKET/LIMIT/STOP long and short, increases, partial and oversize reduce-only '
@@ -197,7 +200,7 @@ class C03(core.Check):
     def correspondence(self, res, boost):
         jesse_env.setup()
         worlds = []
-        for t in range(self.budget(120, 3000, boost)):
+        for t in range(self.budget(300, 3000, boost)):
             w, _, _ = self.run_sequence(self.rng.randint(3, 30 if not self.thorough else 60), oracle=False)
             worlds.append((w, {'seq': t}))
         acctcorr.compare(res, worlds, 'corr/accounts-futures')
@@ -205,7 +208,7 @@ class C03(core.Check):
     def oracle(self, res, boost):
         jesse_env.setup()
         self.discarded = 0
-        for t in range(self.budget(300, 8000, boost)):
+        for t in range(self.budget(800, 8000, boost)):
             w, verdict, interesting = self.run_sequence(self.rng.randint(3, 40 if not self.thorough else 80), oracle=True)
             res.seen(tuple(w.lines), interesting > 0)
             res.count('sequences')
